@@ -198,6 +198,7 @@ class HeaderTypes:
     def __init__(self, bits=64, endianness=Endianness.LITTLE):
         self.bits = bits
         self.endianness = endianness
+        byte_order = "<" if endianness == Endianness.LITTLE else ">"
 
         if bits == 64:
             self.ElfHeader = header.mk_header(
@@ -217,6 +218,7 @@ class HeaderTypes:
                     header.Uint16("e_shnum"),
                     header.Uint16("e_shstrndx"),
                 ],
+                byte_order=byte_order,
             )
             assert self.ElfHeader.size + 16 == 64
         else:
@@ -237,6 +239,7 @@ class HeaderTypes:
                     header.Uint16("e_shnum"),
                     header.Uint16("e_shstrndx"),
                 ],
+                byte_order=byte_order,
             )
             assert self.ElfHeader.size + 16 == 0x34
 
@@ -255,6 +258,7 @@ class HeaderTypes:
                     header.Uint32("sh_addralign"),
                     header.Uint32("sh_entsize"),
                 ],
+                byte_order=byte_order,
             )
             assert self.SectionHeader.size == 0x28
         else:
@@ -272,6 +276,7 @@ class HeaderTypes:
                     header.Uint64("sh_addralign"),
                     header.Uint64("sh_entsize"),
                 ],
+                byte_order=byte_order,
             )
             assert self.SectionHeader.size == 0x40
 
@@ -288,6 +293,7 @@ class HeaderTypes:
                     header.Uint64("p_memsz"),
                     header.Uint64("p_align"),
                 ],
+                byte_order=byte_order,
             )
             assert self.ProgramHeader.size == 0x38
         else:
@@ -303,6 +309,7 @@ class HeaderTypes:
                     header.Uint32("p_flags"),
                     header.Uint32("p_align"),
                 ],
+                byte_order=byte_order,
             )
             assert self.ProgramHeader.size == 0x20
 
@@ -317,6 +324,7 @@ class HeaderTypes:
                     header.Uint64("st_value"),
                     header.Uint64("st_size"),
                 ],
+                byte_order=byte_order,
             )
             assert self.SymbolTableEntry.size == 24
         else:
@@ -330,6 +338,7 @@ class HeaderTypes:
                     header.Uint8("st_other"),
                     header.Uint16("st_shndx"),
                 ],
+                byte_order=byte_order,
             )
             assert self.SymbolTableEntry.size == 16
 
@@ -341,6 +350,7 @@ class HeaderTypes:
                     header.Uint64("r_info"),
                     header.Int64("r_addend"),
                 ],
+                byte_order=byte_order,
             )
             assert self.RelocationTableEntry.size == 24
         else:
@@ -351,6 +361,7 @@ class HeaderTypes:
                     header.Uint32("r_info"),
                     header.Int32("r_addend"),
                 ],
+                byte_order=byte_order,
             )
             assert self.RelocationTableEntry.size == 12
 
@@ -361,6 +372,7 @@ class HeaderTypes:
                     header.Int64("d_tag"),
                     header.Uint64("d_val"),
                 ],
+                byte_order=byte_order,
             )
             assert self.DynamicEntry.size == 16
         else:
@@ -370,5 +382,6 @@ class HeaderTypes:
                     header.Int32("d_tag"),
                     header.Uint32("d_val"),
                 ],
+                byte_order=byte_order,
             )
             assert self.DynamicEntry.size == 8
